@@ -13,7 +13,7 @@ RULE = ('simulated sessions (DESIGN.md section 4): the unmodified Server with it
         'optionally combined with up to 3 stalls (freeze main / one seat thread / one client from its k-th scheduling '
         'point for n steps or until nothing else can run), plus the sequential schedule; 1-3 boards (quick) / 1-6 '
         '(thorough) incl. all-passed-out and mixed lists, generated deals, legal auctions, plays (revokes included), '
-        'client formatting and arrival order; in a quarter of the runs the four players are the bundled Client with generated legal policies. Oracle: the run ends completed - Server.run returned without exception, '
+        'client formatting and arrival order; in a quarter of the runs the four players are the bundled Client with generated legal policies; in a fifth of the reference-client runs the same Server object then hosts a second generated session, which must complete and log its boards as well. Oracle: the run ends completed - Server.run returned without exception, '
         'every seat thread finished without exception, every client read "End of session", the log is complete JSON '
         'holding every board; "no task enabled while one is unfinished" is a deadlock = violation (replay = scenario + '
         'explicit schedule trace). evaluations = sessions run. Non-trivial = completed run in which some enabled task '
@@ -114,10 +114,20 @@ def run_enumeration(spec, stats):
     return []
 
 
-def check_ref_session(scenario, schedule, stats=None, **kw):
+def check_ref_session(scenario, schedule, stats=None, second=None, **kw):
     trace = (('/network_bridge/server.py',), ('_connect', 'run')) if isinstance(schedule, dict) and schedule.get('traced') else None
     r = SE.run_case(scenario, schedule, trace=trace)
     SE.first_problem(SE.completion_problems(scenario, r), scenario, schedule, r)
+    if second is not None:
+        # the same Server object hosts another session afterwards (entered again with `with server: server.run()`): that is a
+        # session like any other - it must run to completion and log its own boards
+        r2 = SE.run_case(second, schedule, trace=trace, server_obj=r.server)
+        probs = SE.completion_problems(second, r2) or SE.log_problems(second, r2)
+        if probs:
+            raise Violation('second session on the same Server object: ' + probs[0][0], SE.case_of(scenario, schedule, r2, {'second': second}), probs[0][1])
+        if stats is not None:
+            stats.evaluated()
+            stats.cls('a second session hosted by the same Server object')
     if stats is not None:
         stats.evaluated()
         f = SE.scenario_features(scenario, schedule)
@@ -133,10 +143,10 @@ def check_ref_session(scenario, schedule, stats=None, **kw):
     return r
 
 
-def check_session(scenario, schedule, stats=None, policy=None, **kw):
+def check_session(scenario, schedule, stats=None, policy=None, second=None, **kw):
     if policy is not None:
         return SE.check_bundled(scenario, schedule, policy, stats)
-    return check_ref_session(scenario, schedule, stats)
+    return check_ref_session(scenario, schedule, stats, second=second)
 
 
 def run_shard(spec, seed, tier, stats):
@@ -147,8 +157,9 @@ def run_shard(spec, seed, tier, stats):
                            {'scenario': SE.bundled_scenario(spec['max_boards']), 'schedule': SE.SCHEDULE(), 'policy': SE.POLICY},
                            seed, spec['n'], tier == 'thorough')
         return [SE.reduce_violation(check_session, v)] if v else []
-    v = run_hypothesis(lambda scenario, schedule: check_ref_session(scenario, schedule, stats),
-                       {'scenario': SE.SCENARIO(1, spec['max_boards'], spec['play_prob']), 'schedule': SE.SCHEDULE()},
+    v = run_hypothesis(lambda scenario, schedule, second: check_ref_session(scenario, schedule, stats, second=second),
+                       {'scenario': SE.SCENARIO(1, spec['max_boards'], spec['play_prob']), 'schedule': SE.SCHEDULE(),
+                        'second': st.one_of(st.none(), st.none(), st.none(), st.none(), SE.SCENARIO(1, 2, 1))},
                        seed, spec['n'], tier == 'thorough')
     return [SE.reduce_violation(check_session, v)] if v else []
 
